@@ -85,6 +85,9 @@ def new_value(name, cur, k):
         if isinstance(cur, np.ndarray) and cur.dtype.kind == "f" and cur.size:
             return up(cur)
         return None
+    if name in ("cost", "end_of_hole"):
+        # plain numbers: the setters take a python int as readily as a float
+        return [7 + k, 12.5 + k][k % 2]
     if name == "units":
         return ["m", "ppm"][k % 2]
     if name == "association":
